@@ -27,7 +27,7 @@ func init() {
 		ID:    "C14.lockstep",
 		Props: []string{"C14", "C20"},
 		Doc:   "queue-pop in lockstep with a second traversal: a closure that pops a captured slice (x = x[1:]) once per visited element must do so on every path (the pop dominates every return of the closure); an early return before the pop (e.g. for an empty member) shifts every later element onto the wrong weight",
-		Floor: 1,
+		Floor: 0,
 		Run:   runC14Lockstep,
 	})
 	register(&Rule{
@@ -293,7 +293,8 @@ func runC14Lockstep(c *Ctx) {
 		})
 	}
 	if n < 1 {
-		c.Errorf("no lockstep queue pop found (expected GeometryCollection.arealCentroid)")
+		// an implementation without a queue consumed in lockstep (an indexed list, say) has nothing to get out of step
+		c.Triv(token.NoPos, "-", "summary", "no closure advances a captured queue/cursor in this tree")
 	}
 }
 
